@@ -24,6 +24,12 @@ type UnitOp struct{}
 func (UnitOp) String() string  { return "=~" }
 func (UnitOp) Context() string { return "unit" }
 
+// IntOp is a user-defined operator of a numeric kind (its numeric value has nothing to do with the built-in range 1..6).
+type IntOp int
+
+func (o IntOp) String() string  { return "op" + fmt.Sprint(int(o)) }
+func (o IntOp) Context() string { return "int-op" }
+
 type c06PtrErr struct{}
 
 func (*c06PtrErr) Error() string { return "pointer-typed error" }
@@ -60,7 +66,8 @@ func c06KwArgs() []c06Arg {
 func c06OpArgs() []c06Arg {
 	return []c06Arg{{"Eq", stackage.Eq}, {"Ne", stackage.Ne}, {"Ge", stackage.Ge}, {"nil", nil}, {`UserOp{"~=","ctx"}`, UserOp{"~=", "ctx"}},
 		{`UserOp{"","ctx"}`, UserOp{"", "ctx"}}, {`UserOp{"x",""}`, UserOp{"x", ""}}, {"ComparisonOperator(0)", stackage.ComparisonOperator(0)}, {"ComparisonOperator(9)", stackage.ComparisonOperator(9)},
-		{"(*ComparisonOperator)(nil)", (*stackage.ComparisonOperator)(nil)}, {"EnumOp(0)", EnumOp(0)}, {"EnumOp(1)", EnumOp(1)}, {"UnitOp{}", UnitOp{}}}
+		{"(*ComparisonOperator)(nil)", (*stackage.ComparisonOperator)(nil)}, {"EnumOp(0)", EnumOp(0)}, {"EnumOp(1)", EnumOp(1)}, {"UnitOp{}", UnitOp{}},
+		{"EnumOp(42)", EnumOp(42)}, {"IntOp(0)", IntOp(0)}, {"IntOp(42)", IntOp(42)}, {"IntOp(-7)", IntOp(-7)}}
 }
 
 func c06ExArgs() []c06Arg {
@@ -68,7 +75,8 @@ func c06ExArgs() []c06Arg {
 	return []c06Arg{{`"v"`, "v"}, {`"w w"`, "w w"}, {`""`, ""}, {"nil", nil}, {"42", 42}, {"3.5", 3.5}, {"true", true},
 		{"Stack", stackage.And().Push("x", "y")}, {"AStack", AStack(stackage.Or().Push("z"))}, {"SStack", SStack(stackage.List().Push(1, 2))}, {"*AStack", &a},
 		{"Condition", stackage.Cond("ik", stackage.Lt, 5)}, {"Name(n)", Name("n")}, {"empty Stack", stackage.Not()},
-		{"(*Name)(nil)", (*Name)(nil)}, {"25 Conditions nested in one another", c06DeepCond(25)}, {"[]string{a}", []string{"a"}}, {"[]string{b,c}", []string{"b", "c"}}, {"map", map[string]int{"k": 1}}, {"struct{[]int}", struct{ L []int }{[]int{1}}}}
+		{"(*Name)(nil)", (*Name)(nil)}, {"25 Conditions nested in one another", c06DeepCond(25)},
+		{"Stack its own validity policy rejects", stackage.And().Push("x").SetValidityPolicy(func(...any) error { return errPolicyRejects })}, {"[]string{a}", []string{"a"}}, {"[]string{b,c}", []string{"b", "c"}}, {"map", map[string]int{"k": 1}}, {"struct{[]int}", struct{ L []int }{[]int{1}}}}
 }
 
 func isStackVal(v any) bool {
